@@ -284,7 +284,10 @@ pub(crate) fn parse_struct(s: &ItemStruct, target_os: &[String]) -> Result<RustI
             if f.unnamed.len() > 1 {
                 return Err(ParseError::ComplexTupleStruct);
             }
-            let f = &f.unnamed[0];
+            let Some(f) = f.unnamed.first() else {
+                // `struct S();` serializes as an empty sequence, which has no counterpart
+                return Err(ParseError::UnsupportedType(format!("{}()", s.ident)));
+            };
 
             let ty = if let Some(ty) = get_field_type_override(&f.attrs) {
                 ty.parse()?
@@ -442,7 +445,10 @@ fn parse_enum_variant(
                 return Err(ParseError::MultipleUnnamedAssociatedTypes);
             }
 
-            let first_field = associated_type.unnamed.first().unwrap();
+            let Some(first_field) = associated_type.unnamed.first() else {
+                // `Variant()` serializes as an empty sequence, which has no counterpart
+                return Err(ParseError::UnsupportedType(format!("{}()", v.ident)));
+            };
 
             let ty = if let Some(ty) = get_field_type_override(&first_field.attrs) {
                 ty.parse()?
